@@ -79,6 +79,7 @@ struct KS
     Why      why{W_NEVER};
     uint8_t  moved{0};    // deadline moved by an update since insertion
     uint8_t  lastuse{0};  // 0 insert, 1 update, 2 lookup
+    uint8_t  inferred{0}; // the current value was written by a range element whose acceptance nobody observed directly
     uint32_t gen{0};      // times (re)inserted after absence
     uint64_t val{0}, ins_seq{0}, use_seq{0}, wr_seq{0}, count{0};
     int64_t  touch{0}, deadline{0}, wtime{0};
@@ -171,7 +172,8 @@ static const size_t MAX_CANDS = 4096;
 class Model
 {
 public:
-    Cfg cfg;
+    Cfg          cfg;
+    mutable bool in_range_op{false};
     explicit Model(const Cfg& c) : cfg(c) {}
 
     State initial() const
@@ -223,6 +225,7 @@ public:
     // Returns false if the candidate cap was exceeded (caller treats the case as inconclusive).
     bool step(const State& s0, const Op& op, int64_t now, std::vector<Outcome>& out) const
     {
+        in_range_op = op_is_range(op.kind);
         std::vector<Cand> cur(1), nxt;
         cur[0].st = s0;
         State& s  = cur[0].st;
@@ -593,8 +596,9 @@ private:
             e.moved   = 1;
             e.lastuse = 1;
         }
-        e.use_seq = s.seq;
-        e.wr_seq  = s.seq;
+        e.use_seq  = s.seq;
+        e.wr_seq   = s.seq;
+        e.inferred = in_range_op ? 1 : 0;
         e.touch   = now;
         e.wtime   = now;
         e.st      = LIVE;
